@@ -74,7 +74,7 @@ def gen_graph(rng, flavour):
     n = rng.randint(2, 5)
     nodes = []
     for i in range(n):
-        labels = rng.choice([[], ["A"], ["B"], ["A", "B"], ["A"]])
+        labels = rng.choice([["A"], ["B"], ["A", "B"], ["A"], ["A", "B"], []])
         props = {}
         p, q = rng.choice(PVALS), rng.choice(QVALS)
         if p is not None:
@@ -83,7 +83,7 @@ def gen_graph(rng, flavour):
             props["q"] = q
         nodes.append((labels, props))
     rels = []
-    for _ in range(rng.randint(0, 6)):
+    for _ in range(rng.randint(2, 8)):
         s, d = rng.randrange(n), rng.randrange(n)
         if flavour != "loops" and s == d:
             continue
@@ -193,9 +193,9 @@ class Gen:
             v = r.choice(bound)
             return {"v": v, "labels": [], "props": []}, "(%s)" % v, None
         v = self.fresh("n") if r.random() < 0.85 else ""
-        labels = [r.choice(["A", "B"])] if r.random() < 0.4 else []
+        labels = [r.choice(["A", "B"])] if r.random() < 0.25 else []
         props, ptxt = [], ""
-        if r.random() < 0.15:
+        if r.random() < 0.06:
             val = r.choice([1, 2, "a"])
             k = r.choice(["p", "q"])
             props = [[k, ["lit", tv_of(val)]]]
@@ -205,7 +205,7 @@ class Gen:
     def rel_pat(self):
         r = self.rng
         v = self.fresh("r") if r.random() < 0.6 else ""
-        types = r.choice([[], [], ["R"], ["S"], ["R", "S"]])
+        types = r.choice([[], [], [], ["R"], ["S"], ["R", "S"], ["R", "S"]])
         d = r.choice(["out", "out", "in", "both"])
         lo, hi = 1, 1
         if r.random() < 0.15:
@@ -223,7 +223,7 @@ class Gen:
 
     def pattern(self):
         r = self.rng
-        hops = r.choice([0, 1, 1, 1, 2])
+        hops = r.choice([0, 0, 1, 1, 1, 2])
         nodes, rels, txt, newvars = [], [], "", []
         np, t, nv = self.node_pat()
         nodes.append(np)
@@ -253,7 +253,7 @@ class Gen:
             pats.append(p)
             txts.append(t)
         where, wtxt = ["none"], ""
-        if r.random() < 0.5:
+        if r.random() < 0.35:
             w = self.pred()
             where, wtxt = w["ast"], " WHERE " + w["text"]
         return ({"t": "match", "opt": opt, "pats": pats, "where": where},
